@@ -55,4 +55,22 @@ end
 /-- the dotted names `named_modules()` yields -/
 def Mod.dottedNames (t : Mod) : List String := t.named.map fun pm => ".".intercalate pm.1
 
+/-! ### `named_modules()` has a memo: a module object reachable along two paths is yielded once, under
+the first path (and its sub-modules are not visited again).  Identities stand for objects. -/
+
+def Mod.rootId : Mod → Nat
+  | .leaf id _ _ => id
+  | .node id _ _ => id
+
+def dedupFirst : List (List String × Mod) → List Nat → List (List String × Mod)
+  | [], _ => []
+  | pm :: rest, seen =>
+    if seen.contains pm.2.rootId then dedupFirst rest seen else pm :: dedupFirst rest (pm.2.rootId :: seen)
+
+/-- `named_modules()` (default `remove_duplicate=True`) -/
+def Mod.namedMemo (t : Mod) : List (List String × Mod) := dedupFirst t.named []
+
+/-- the loop of `quantize()` over what `named_modules()` really yields -/
+def quantizeLoop (a : QuantizeArgs) (t : Mod) : Mod := t.namedMemo.foldl (flatStep a) t
+
 end Quanto
